@@ -49,10 +49,10 @@ def run(ctx):
     dq = ", ".join('"%s"' % x for x in present)
     cases = ctx.path("cases.ndjson")
     if not present:
-        g = ctx.tlc(sd, "MC_AddressText", cfg("r1.cfg", log="LogAppend", rest="INVARIANTS Inv_C48_DecodeAsRequired\nACTION_CONSTRAINT Emit"),
+        g = r1 = ctx.tlc(sd, "MC_AddressText", cfg("r1.cfg", log="LogAppend", rest="INVARIANTS Inv_C48_DecodeAsRequired\nACTION_CONSTRAINT Emit"),
                     timeout=900, behaviours_out=cases, coverage=not quick)
     else:
-        ctx.tlc(sd, "MC_AddressText", cfg("r1.cfg", rest="INVARIANTS Inv_C48_DecodeAsRequired"), timeout=900, coverage=not quick)
+        r1 = ctx.tlc(sd, "MC_AddressText", cfg("r1.cfg", rest="INVARIANTS Inv_C48_DecodeAsRequired"), timeout=900, coverage=not quick)
         r = ctx.tlc(sd, "MC_AddressText", cfg("r1c.cfg", defects=dq, rest="INVARIANTS Inv_C48_DecodeAsRequired"), timeout=900,
                     allow=("invariant",), count=False)
         if r.ok:
@@ -63,6 +63,8 @@ def run(ctx):
                     behaviours_out=cases, count=False)
     if g.ok and g.behaviours == 0:
         ctx.broken.append("case export produced nothing")
+    if not quick and r1.coverage_zero:
+        ctx.broken.append("vacuity guard: actions never taken in R1: %s" % r1.coverage_zero)
     per, percanon = (3, 60) if quick else (10, 400)
     h = ctx.vh(exe, ["replay", cases, per, percanon], timeout=1800)
     ctx.cov(traces_validated_against_impl=int(h.stats.get("cases", 0)), evaluations=int(h.stats.get("evaluations", 0)),
